@@ -550,6 +550,18 @@ pub fn churn<P: PType>(st: &MapSt<P>, cx: &Cx) -> (Vec<Viol>, u64) {
         let mut after2 = 0;
         let mut broken = false;
         for round in 0..8 {
+            {
+                // never run remove_children / retain on a structure that is already broken
+                let (_, vs, fatal) = walk(&m.verif_dump(), cx.uni.width);
+                if fatal || !vs.is_empty() {
+                    for mut v in vs {
+                        v.detail = format!("during a remove_children/retain cycle with selector {:x?}: {}", k, v.detail);
+                        out.push(v);
+                    }
+                    broken = true;
+                    break;
+                }
+            }
             m.remove_children(&mkp::<P>(k));
             for (p, v) in &entries {
                 m.insert(p.clone(), *v);
